@@ -244,7 +244,7 @@ func candidates(r *fw.Rand, key string, def interface{}) []cand {
 			add("secret-zero", true, "")
 			add("secret-malformed", true, "abcd", strings.Repeat("zz", 32), 1)
 		default:
-			add("string", false, "abc", "x-y_z", "a/b/c", strings.Repeat("q", 300), "Zürich ✓")
+			add("string", false, "abc", "x-y_z", "a/b/c", strings.Repeat("q", 300), "Zürich ✓", "ABC", "Abc", "a/b/c/", "a//b/c", "abc ")
 			add("string-zero", true, "")
 			add("string-malformed", true, 3, []interface{}{"a"})
 		}
@@ -268,7 +268,9 @@ func candidates(r *fw.Rand, key string, def interface{}) []cand {
 			add("maddr-list-zero", true, []interface{}{}, nil)
 			add("maddr-list-malformed", true, []interface{}{"nope"}, []interface{}{5}, "x")
 		} else {
-			add("list", false, []interface{}{"a"}, []interface{}{"a", "b"}, []interface{}{"GET"}, []interface{}{"X-One", "X-Two", "X-Three"})
+			add("list", false, []interface{}{"a"}, []interface{}{"a", "b"}, []interface{}{"GET"}, []interface{}{"X-One", "X-Two", "X-Three"},
+				// the same names in another spelling are another setting
+				[]interface{}{"x-one", "X-TWO"}, []interface{}{"X-One", "X-Two"}, []interface{}{"A"}, []interface{}{"b", "a"})
 			add("list-zero", true, []interface{}{}, nil)
 			add("list-malformed", true, []interface{}{5}, "x", map[string]interface{}{})
 		}
@@ -277,7 +279,7 @@ func candidates(r *fw.Rand, key string, def interface{}) []cand {
 			add("map", false, map[string]interface{}{"u": canaryPass}, map[string]interface{}{"u": canaryPass, "v": "w"}, map[string]interface{}{"admin": "x"})
 		} else {
 			add("map", false, map[string]interface{}{"A": []interface{}{"b"}}, map[string]interface{}{"A": []interface{}{"c"}, "D": []interface{}{"e"}},
-				map[string]interface{}{"X-Y": []interface{}{"1", "2"}})
+				map[string]interface{}{"X-Y": []interface{}{"1", "2"}}, map[string]interface{}{"x-y": []interface{}{"1", "2"}}, map[string]interface{}{"X-Y": []interface{}{"2", "1"}})
 		}
 		add("map-zero", true, map[string]interface{}{}, nil)
 		add("map-malformed", true, map[string]interface{}{"a": 5}, "x", []interface{}{})
